@@ -1303,3 +1303,125 @@ def sentence_ends_blocks_case(lw=79):
     ttoks.append('TABLE#')
     return {'lw': lw, 'title': ['Sentence', 'ends.'], 'intro': ['intro.'], 'outro': ['outro.'], 'items': items, 'rows': rows, 'header': False,
             'wrapcol': True, 'ltoks': ltoks, 'ttoks': ttoks, 'lflag': '<wrapalign>', 'tflag': '<wrapalign>'}
+
+
+# ---------------------------------------------------------------------------------------------
+# #TABLE with a wrappable (:w) column that holds cells spanning 2-3 columns: line-width sweep
+
+def _short_words(n, tag):
+    """n distinct words of 2..5 characters (none needs more room than the minimum width of a wrapped column)."""
+    lens = (3, 5, 5, 3, 5, 4, 3, 4, 3, 5, 2, 4, 5, 3, 4, 4, 5, 2, 3, 5, 4)
+    out = []
+    for i in range(n):
+        w = '%s%d' % (tag, i)
+        out.append(w + 'abcde'[:max(0, lens[i % len(lens)] - len(w))])
+    return out
+
+
+def wrap_span_family():
+    """A small family of tables in which a wrappable column holds a cell that spans columns and whose text (short
+    words only) must be wrapped for the table to fit.  Each member: (name, #TABLE parameters, rows), a row being a
+    list of (flags, words).  A spanning cell always *starts* in a ':w' column (a cell is wrapped iff its first
+    column carries the flag), so every member fits in any text width >= 38 when its wrappable cells are wrapped."""
+    S = _short_words
+    fam = [
+        ('c2-first', 'default,:w', [[('h', ['Value']), ('h', ['Mean'])], [('c2', S(21, 'a'))], [('', ['1']), ('', ['Short'])]]),
+        ('c2-both', 'default,:w,:w', [[('h', ['Value']), ('h', ['Mean'])], [('c2', S(23, 'b'))], [('', ['1']), ('', S(6, 'B'))]]),
+        ('c3-first', 'default,:w', [[('', ['k']), ('', ['val']), ('', ['n'])], [('c3', S(30, 'c'))], [('', ['1']), ('', ['2']), ('', ['3'])]]),
+        ('c2-last', 'default,,:w', [[('', ['key']), ('c2', S(24, 'd'))], [('', ['x']), ('', ['y']), ('', ['z'])]]),
+        ('c2-then-cell', 'default,:w', [[('c2', S(18, 'e')), ('', ['tail'])], [('', ['p']), ('', ['q']), ('', ['r'])]]),
+        ('c2-twice', 'default,:w', [[('', ['x']), ('', ['y'])], [('c2', S(12, 'f'))], [('c2,h', S(26, 'F'))]]),
+        ('c2-side-by-side', 'default,:w,,:w', [[('c2', S(15, 'g')), ('c2', S(17, 'G'))], [('', ['s']), ('', ['t']), ('', ['u']), ('', ['v'])]]),
+        ('c2-and-wrapped-cell', 'default,:w', [[('', S(9, 'h')), ('', ['m'])], [('c2', S(20, 'H'))]]),
+        ('c3-middle', 'default,,:w', [[('', ['id']), ('c3', S(27, 'i'))], [('', ['1']), ('', ['2']), ('', ['3']), ('', ['4'])]]),
+        ('c2-rowspan', 'default,:w', [[('c2,r2', S(19, 'j')), ('', ['up'])], [('', ['down'])], [('', ['l']), ('', ['m']), ('', ['n'])]]),
+    ]
+    return fam
+
+
+def wrap_span_overlap_family():
+    """Two wrappable spanning cells that share a column (columns 0-1 and 1-2): the class of the finding
+    `asm-table-overlapping-wrapped-colspans-too-wide`; kept out of the sweep, probed separately."""
+    S = _short_words
+    return [('c2-overlap', 'default,:w,:w', [[('c2', S(20, 'a')), ('', ['t'])], [('', ['k']), ('c2', S(26, 'b'))], [('', ['p']), ('', ['q']), ('', ['r'])]])]
+
+
+def wrap_span_case(lw, overlap=False):
+    """One skool file for line width `lw`: an entry per member of the family, the table being its description."""
+    entries = []
+    for i, (name, params, rows) in enumerate(wrap_span_overlap_family() if overlap else wrap_span_family()):
+        ttoks = ['#TABLE(%s)' % params]
+        cells = []
+        for row in rows:
+            ttoks.append('{')
+            for j, (flags, words) in enumerate(row):
+                if j:
+                    ttoks.append('|')
+                if flags:
+                    ttoks.append('=' + flags)
+                ttoks += words
+                cells.append(words)
+            ttoks.append('}')
+        ttoks.append('TABLE#')
+        entries.append({'addr': 32768 + i, 'name': name, 'ttoks': ttoks, 'cells': cells})
+    return {'lw': lw, 'entries': entries}
+
+
+def wrap_span_skool(case):
+    out = ['@start', '@set-line-width=%d' % case['lw']]
+    for e in case['entries']:
+        out += ['; Table %s' % e['name'], ';']
+        # one table row per source line (line breaks in a paragraph are white space)
+        line = []
+        for t in e['ttoks']:
+            line.append(t)
+            if t == '}' or t.startswith('#TABLE'):
+                out.append('; ' + ' '.join(line))
+                line = []
+        out.append('; ' + ' '.join(line))
+        out += ['c%d RET' % e['addr'], '']
+    return '\n'.join(out)
+
+
+def check_wrap_span_asm(out, err, case):
+    """Every member of the family consists of short words only, so: no table line is wider than the line width, no
+    'Table in entry at N is M characters wide' warning, and every word appears exactly once, in order within its cell."""
+    fails = []
+    lw = case['lw']
+    blocks, cur = [], []
+    for l in out.replace('\r\n', '\n').split('\n'):
+        if l.startswith(';'):
+            cur.append(l)
+        elif cur:
+            blocks.append(cur)
+            cur = []
+    if cur:
+        blocks.append(cur)
+    if len(blocks) != len(case['entries']):
+        return [('asm-blocks-structure', 'expected %d entries, got %d comment blocks' % (len(case['entries']), len(blocks)))]
+    warned = {}
+    for l in err.split('\n'):
+        m = re.match(r'WARNING: Table in entry at (\d+) is (\d+) characters wide', l)
+        if m:
+            warned[int(m.group(1))] = int(m.group(2))
+    for b, e in zip(blocks, case['entries']):
+        definition = ' '.join(e['ttoks'])
+        if ';' not in b[1:2] or b[0].split() != [';', 'Table', e['name']]:
+            fails.append(('asm-blocks-structure', 'entry %d: expected a title and one paragraph, got %r' % (e['addr'], b[:3])))
+            continue
+        tl = b[2:]
+        wide = [l for l in tl if len(l) > lw]
+        if wide:
+            fails.append(('asm-table-wider-than-needed',
+                          'line width %d, table %s (short words only, wrappable spanning cell): %d line(s) of %d characters, e.g. %r; definition %r'
+                          % (lw, e['name'], len(wide), max(len(l) for l in wide), wide[0], definition)))
+        if e['addr'] in warned and not wide:
+            fails.append(('asm-table-spurious-warning', 'line width %d, table %s: warning "%d characters wide" although no line is wider than %d; definition %r'
+                          % (lw, e['name'], warned[e['addr']], lw, definition)))
+        if e['addr'] in warned and wide:
+            fails.append(('asm-table-warning-for-a-table-that-fits', 'line width %d, table %s: skool2asm warns that the table is %d characters wide; every '
+                          'word is at most 5 characters long, so the table fits when its wrappable cells are wrapped; definition %r'
+                          % (lw, e['name'], warned[e['addr']], definition)))
+        toks = [t for l in tl for t in l[1:].split() if t.strip('+-|=')]
+        fails += _span_words(toks, {'cells': e['cells'], 'ttoks': e['ttoks']}, 'asm')
+    return fails
